@@ -1,6 +1,7 @@
 """Non-verifier side checks attached to a property (mechanical scans, rustc trait
 obligations, re-demonstration of known findings).  Each returns a dict:
 {name, status: ok|fail|undecided, reason, failures:[...], obligations, discharged, trusted:[...]}"""
+import json
 import os
 import re
 import subprocess
@@ -210,6 +211,50 @@ def stack_depth(tier):
         return {'status': 'fail' if fails else 'ok', 'failures': fails, 'obligations': 0, 'discharged': 0,
                 'cmd': 'replay_driver searchfile <deep inputs> (subprocess on the real crate)', 'demonstrated': [f['label'] for f in fails],
                 'note': 'not a proof obligation: a demonstration that the known stack-depth finding still reproduces'}
+    finally:
+        shutil.rmtree(scratch, ignore_errors=True)
+
+
+@extra
+def expref_position(tier):
+    """C03: the published grammar admits an expression reference ('&' expression) only as a function argument; this
+    implementation treats it as a prefix form of any expression.  specs/grammar.rs follows the implementation in
+    this one place (flagged there), so the deviation is not an obligation of the refinement proof; it is a known
+    finding, re-demonstrated on the real crate each run.  Each input is its own obligation, so the line disappears
+    for an input the crate starts to reject, and nothing else is suppressed."""
+    import replaydrv
+    scratch = tempfile.mkdtemp(prefix='vf_expref_')
+    try:
+        try:
+            replaydrv.build(scratch)
+        except Exception as e:
+            return {'status': 'undecided', 'reason': 'replay driver build failed: %r' % e}
+        inputs = {
+            'top-level': '&a',
+            'dot-rhs': 'a.&b',
+            'multi-select-list-element': '[&a]',
+            'multi-select-hash-value': '{a: &b}',
+            'filter-predicate': 'a[?&b]',
+            'not-operand': '!&a',
+            'or-operand': 'a || &b',
+        }
+        fails = []
+        for name, e in inputs.items():
+            r = replaydrv.run(scratch, 'search', e, '{}')
+            if 'compile_err' in r:
+                continue
+            if 'ok' not in r and 'search_err' not in r:
+                return {'status': 'undecided', 'reason': 'replay driver gave no verdict on %r: %r' % (e, r)}
+            fails.append({'obligation': 'extra/expref_position#accepted:%s' % name, 'kind': 'accepted', 'label': name, 'properties': ['C03'],
+                          'function': 'parser.rs::Parser::nud (Token::Ampersand arm) / Parser::parse_dot',
+                          'message': 'compile(%r) is Ok; the grammar has expression-type only under function-arg' % e,
+                          'clause': 'expression-type = "&" expression occurs only as function-arg', 'site': {'repo': 'jmespath/src/parser.rs'},
+                          'rendered': 'replay_driver search %r {} -> %s' % (e, json.dumps(r)[:300]),
+                          'backend': 'extra', 'witness': {'expression': e}, 'witness_replayed': True})
+        return {'status': 'fail' if fails else 'ok', 'failures': fails, 'obligations': 0, 'discharged': 0,
+                'cmd': 'replay_driver search <expression with & outside a call> {} (subprocess on the real crate)',
+                'demonstrated': [f['label'] for f in fails],
+                'note': 'not a proof obligation: a demonstration that the known expression-reference finding still reproduces'}
     finally:
         shutil.rmtree(scratch, ignore_errors=True)
 
